@@ -845,7 +845,6 @@ func TestC04Relay(t *testing.T) {
 	})
 }
 
-
 // c04BackToBack: two frames of one direction reach the other end in a single
 // segment (a byte stream does not keep write boundaries): both must arrive.
 func c04BackToBack(c *core.Case, ends [2]*wire.End, nodes [2]*vnet.Node) {
